@@ -236,8 +236,12 @@ def rule_o5(repo):
             continue
         gc = gcd_calls(g.node, ps[0])
         rets = [r for r in ast.walk(g.node) if isinstance(r, ast.Return) and r.value is not None]
+        from ..flow import flow_of as _fo
+        gflow = _fo(g.node)
+        divided = {t.id for a in ast.walk(g.node) if isinstance(a, ast.Assign) and any(isinstance(x, ast.BinOp) and isinstance(x.op, ast.FloorDiv) for x in ast.walk(a.value))
+                   for t in a.targets if isinstance(t, ast.Name)}
         if gc and rets and all(is_name(r.value, ps[0]) or any(isinstance(x, ast.BinOp) and isinstance(x.op, ast.FloorDiv) for x in ast.walk(r.value)) or
-                               isinstance(r.value, ast.Name) for r in rets):
+                               isinstance(r.value, ast.Name) or (gflow.names_closure(r.value) & divided) for r in rets):
             reducers[g.name] = all(a for _c, a in gc)
     for f in m.all_funcs:
         if f.name == 'insert_db' or f.parent is not None or f.name in reducers:
@@ -401,6 +405,28 @@ def rule_o8(repo):
                     'every conclusion from an entry follows a comparison of its key' if not bad else
                     'line %d `%s` is reached for an entry of the bucket `%s` whose key was not compared: entries of a bucket agree on the hash of the key '
                     'only' % (bad[0].lineno, src(bad[0].ast, 50), src(it, 40)), 'prover/omega.py:%d' % (bad[0] if bad else lp).lineno)
+        # the same walk written as a comprehension: [v .. for v in db[hash(k)] if v.factoid.key == k.key and ..] - the key comparison is the first filter
+        for comp in [n for n in ast.walk(f.node) if isinstance(n, (ast.ListComp, ast.GeneratorExp, ast.SetComp)) and len(n.generators) == 1 and
+                     isinstance(n.generators[0].target, ast.Name)]:
+            flow = flow or flow_of(f.node)
+            g_ = comp.generators[0]
+            it = flow.inline(g_.iter)
+            if not (isinstance(it, ast.Subscript) and any(isinstance(c, ast.Call) and call_name(c) == 'hash' for c in ast.walk(flow.inline(it.slice)))):
+                continue
+            v = g_.target.id
+            first = []
+            if g_.ifs:
+                c0 = g_.ifs[0]
+                first = c0.values[:1] if isinstance(c0, ast.BoolOp) and isinstance(c0.op, ast.And) else [c0]
+            ok = False
+            for t_ in first:
+                cp = compare_parts(t_)
+                if cp and cp[0] is ast.Eq and any((path_of(x) or '') in (v + '.factoid.key', v + '.key') for x in (cp[1], cp[2])):
+                    ok = True
+            res.add('prover/omega.py :: %s :: bucket(%s)' % (f.qualname, src(it, 40)), ok,
+                    'the entries are filtered by their key first' if ok else
+                    'line %d takes entries of the bucket `%s` without comparing their key first: entries of a bucket agree on the hash of the key only' % (
+                        comp.lineno, src(it, 40)), 'prover/omega.py:%d' % comp.lineno)
     return res
 
 
